@@ -143,3 +143,23 @@ Example C09_hc_chain_nonvacuous :
   (let r := compress_HC_chain (mem_of_list 0 l) 60 20 3 in (cr_ret r, cr_hw r)) = (17, 17) /\
   (let r := compress_HC_chain (mem_of_list 0 l) 60 12 3 in cr_ret r) = 0 /\ compressBound 60 = 76 /\ chain_level 3 = true.
 Proof. vm_compute. repeat split; reflexivity. Qed.
+
+(* HC levels 3-12, on a context with any history: the capacity contract of C09_hc_chain_capacity, for the optimal
+   parser as well. *)
+From LZ4V Require Model.HcOpt Proofs.HcOptParser.
+From LZ4V Require Import Model.HcOptApi Proofs.HcOptApiSound.
+
+Theorem C09_hc_opt_capacity :
+  forall c src srcSize cap cLevel,
+    cc_ok c -> src_ok src -> 0 <= srcSize < 2147483648 -> 0 <= cap -> all_level cLevel = true ->
+    let r := compress_HC_fastReset_all c src srcSize cap cLevel in
+    (cap < compressBound srcSize -> cr_hw r <= cap /\ cr_ret r <= cap) /\
+    (compressBound srcSize <= cap -> srcSize <= LZ4_MAX_INPUT_SIZE -> 0 < cr_ret r /\ cr_hw r <= compressBound srcSize).
+Proof. exact opt_capacity. Qed.
+Print Assumptions C09_hc_opt_capacity.
+
+Example C09_hc_opt_nonvacuous :
+  let l := concat (repeat [97; 98; 99; 100] 13) ++ [1; 2; 3; 4; 5; 6; 7; 8] in
+  (let r := compress_HC_all (mem_of_list 0 l) 60 20 10 in (cr_ret r, cr_hw r)) = (17, 17) /\
+  (let r := compress_HC_all (mem_of_list 0 l) 60 12 10 in cr_ret r) = 0 /\ all_level 10 = true.
+Proof. vm_compute. repeat split; reflexivity. Qed.
